@@ -112,6 +112,26 @@ func vfMakeLeaf(ca *x509.Certificate, caKey crypto.Signer, kind, cn string, dns 
 	return tls.Certificate{Certificate: [][]byte{der, ca.Raw}, PrivateKey: priv, Leaf: leaf}
 }
 
+// vfWithEKU issues an ECDSA leaf like vfMakeLeaf but with exactly the given extended key usage.
+func vfWithEKU(_ any, ca *x509.Certificate, caKey crypto.Signer, cn string, dns []string, notBefore, notAfter time.Time, serial int64, eku x509.ExtKeyUsage) tls.Certificate {
+	priv, err := ecdsa.GenerateKey(elliptic.P256(), rand.Reader)
+	if err != nil {
+		panic(err)
+	}
+	tmpl := &x509.Certificate{
+		SerialNumber: big.NewInt(serial), Subject: pkix.Name{CommonName: cn}, DNSNames: dns,
+		NotBefore: notBefore, NotAfter: notAfter,
+		KeyUsage: x509.KeyUsageDigitalSignature, ExtKeyUsage: []x509.ExtKeyUsage{eku},
+	}
+	der, err := x509.CreateCertificate(rand.Reader, tmpl, ca, priv.Public(), caKey)
+	if err != nil {
+		panic(err)
+	}
+	leaf, _ := x509.ParseCertificate(der)
+
+	return tls.Certificate{Certificate: [][]byte{der, ca.Raw}, PrivateKey: priv, Leaf: leaf}
+}
+
 func vfGetPKI() *vfPKI {
 	vfPKIOnce.Do(func() {
 		p := &vfPKI{leaf: map[string]tls.Certificate{}}
@@ -158,6 +178,9 @@ func vfGetPKI() *vfPKI {
 			nb, time.Date(2000, 1, 1, 6, 0, 0, 0, time.UTC), 214)
 		p.leaf["ecdsa/client-shortlived"] = vfMakeLeaf(p.CA, p.CAKey, "ecdsa", "vf-client-shortlived", []string{"vf.client.example"},
 			nb, time.Date(2000, 1, 1, 6, 0, 0, 0, time.UTC), 215)
+		// extended key usage of the other role only
+		p.leaf["ecdsa/server-clientauth-eku"] = vfWithEKU(vfMakeLeaf, p.CA, p.CAKey, "vf-server-wrong-eku", []string{vfServerName}, nb, na, 216, x509.ExtKeyUsageClientAuth)
+		p.leaf["ecdsa/client-serverauth-eku"] = vfWithEKU(vfMakeLeaf, p.CA, p.CAKey, "vf-client-wrong-eku", []string{"vf.client.example"}, nb, na, 217, x509.ExtKeyUsageServerAuth)
 		p.leaf["ecdsa/server-2"] = vfMakeLeaf(p.CA, p.CAKey, "ecdsa", "vf-server-2", []string{vfServerName}, nb, na, 206)
 		p.leaf["ecdsa/client-2"] = vfMakeLeaf(p.CA, p.CAKey, "ecdsa", "vf-client-2", []string{"vf.client.example"}, nb, na, 207)
 		vfPKIv = p
